@@ -31,6 +31,13 @@ def main():
     if gate:
         proof["ok"] = False
         proof["gate"] = gate
+    if tier == "thorough" and proof.get("ok"):
+        chk = core.coqchk_props(pid, getattr(mod, "EXTRA_AXIOMS", ()))
+        proof["coqchk_ok"] = chk["ok"]
+        proof["coqchk_axioms"] = chk["axioms"]
+        if not chk["ok"]:
+            proof["ok"] = False
+            proof["log"] = "coqchk: " + str(chk.get("bad")) + str(chk.get("unsafe")) + "\n" + chk["log"]
     tf = core.translator_failure(pid)
     if tf:
         proof["ok"] = False
